@@ -216,20 +216,22 @@ class BlockNode(Node):
                 template_name=stack_item.source_name,
             )
 
+        block_drop = BlockDrop(
+            token=self.token,
+            context=context,
+            buffer=buffer,
+            name=self.name,
+            parent=stack_item.parent,
+        )
+
         ctx = context.copy(
             token=self.token,
-            namespace={
-                "block": BlockDrop(
-                    token=self.token,
-                    context=context,
-                    buffer=buffer,
-                    name=self.name,
-                    parent=stack_item.parent,
-                )
-            },
+            namespace={"block": block_drop},
             carry_loop_iterations=True,
             block_scope=True,
         )
+
+        block_drop.block_context = ctx
 
         return stack_item.block.block.render(ctx, buffer)
 
@@ -270,20 +272,22 @@ class BlockNode(Node):
                 template_name=stack_item.source_name,
             )
 
+        block_drop = BlockDrop(
+            token=self.token,
+            context=context,
+            buffer=buffer,
+            name=self.name,
+            parent=stack_item.parent,
+        )
+
         ctx = context.copy(
             token=self.token,
-            namespace={
-                "block": BlockDrop(
-                    token=self.token,
-                    context=context,
-                    buffer=buffer,
-                    name=self.name,
-                    parent=stack_item.parent,
-                )
-            },
+            namespace={"block": block_drop},
             carry_loop_iterations=True,
             block_scope=True,
         )
+
+        block_drop.block_context = ctx
         return await stack_item.block.block.render_async(ctx, buffer)
 
     def children(
@@ -363,7 +367,7 @@ class _BlockStackItem:
 class BlockDrop(Mapping[str, object]):
     """A `block` object with a `super` property."""
 
-    __slots__ = ("token", "buffer", "context", "name", "parent")
+    __slots__ = ("token", "buffer", "context", "name", "parent", "block_context")
 
     def __init__(
         self,
@@ -380,6 +384,9 @@ class BlockDrop(Mapping[str, object]):
         self.name = name
         self.parent = parent
 
+        self.block_context: RenderContext | None = None
+        """The context the overriding block is rendered in, if it is not `context`."""
+
     def __str__(self) -> str:  # pragma: no cover
         return f"BlockDrop({self.name})"
 
@@ -393,7 +400,15 @@ class BlockDrop(Mapping[str, object]):
         # NOTE: We're not allowing chaining of references to `super` for now.
         # Just the immediate parent.
         buf = self.context.get_output_buffer(self.buffer)
-        with self.context.extend(
+
+        # The parent block is rendered in the base context, but `super` might have
+        # been reached from inside loops belonging to the overriding block's context.
+        iterations = 1
+        if self.block_context is not None:
+            for loop in self.block_context.loops:
+                iterations *= max(loop.length, 1)
+
+        with self.context.loop_iterations(iterations), self.context.extend(
             {
                 "block": BlockDrop(
                     token=self.parent.token,
